@@ -11,6 +11,7 @@ structure Stats where
   bad : Nat := 0
   tags : Std.HashMap String Nat := {}
   shownD : Nat := 0
+  noncanon : Nat := 0
   clsCount : Std.HashMap String Nat := {}
   seen : Std.HashSet UInt64 := {}
   distinct : Nat := 0
@@ -60,6 +61,9 @@ partial def loop (h : IO.FS.Stream) (st : Stats) (lineno : Nat) : IO Stats := do
             if k < maxShownPerClass then
               IO.println s!"S {lineno} class={c} modeldiff={isDiff} reason={r.reason} | {l}"
             st := { st with specfail := st.specfail + 1, clsCount := st.clsCount.insert c (k + 1) }
+          if !r.canonical then
+            IO.println s!"K {lineno} non-canonical output | {l}"
+            st := { st with noncanon := st.noncanon + 1 }
           if !isDiff && r.specOk then st := { st with ok := st.ok + 1 }
           loop h st (lineno + 1)
     | [] => loop h { st with total := st.total + 1, bad := st.bad + 1 } (lineno + 1)
@@ -75,5 +79,5 @@ def main (args : List String) : IO UInt32 := do
     IO.println s!"T {t} {c}"
   for (c, k) in st.clsCount.toList do
     IO.println s!"C {c} {k}"
-  IO.println s!"N total={st.total} ok={st.ok} diff={st.diff} specfail={st.specfail} bad={st.bad} distinct={st.distinct}"
+  IO.println s!"N total={st.total} ok={st.ok} diff={st.diff} specfail={st.specfail} bad={st.bad} distinct={st.distinct} noncanon={st.noncanon}"
   return 0
